@@ -3,6 +3,7 @@ import DuneVerif.Proofs.C08Ev3Top
 import DuneVerif.Proofs.C08Lapack
 import DuneVerif.Proofs.C08Outputs
 import DuneVerif.Proofs.C08Tie
+import DuneVerif.Proofs.C08NonSymSpec
 /-!
 # C08 — property theorems: the closed-form eigenvalue routines in exact arithmetic
 
@@ -523,16 +524,20 @@ theorem nonsym_dynamic_vectors_right {R : Type} [CommRing R] (n : Nat) (A : Nat 
 /-! ## Round four: the control tables and LAPACK call sites regenerated from the current source -/
 
 /-- **ev3_control_translated.** The table-driven definitions — `eig0` with the translated rows, cross-product pairs,
-lengths, running-maximum updates and result selection; the eigenvector assembly with the translated indices of both
+lengths, running-maximum updates and result selection; `orthoComp` with the translated branch condition, normalising
+2-vector and components; `eig1` with the translated reduced matrix and the four translated normalisation sequences
+and result coefficients; the eigenvector assembly with the translated indices of both
 branches of `if (r >= 0)`; the whole 3x3 eigenvector routine built from them — coincide, for every scalar type and all
 arguments, with the hand-written control flow the other theorems speak about.  The line-protocol driver runs the
 table-driven ones. -/
 theorem ev3_control_translated {K : Type} [Add K] [Sub K] [Mul K] [Div K] [Neg K] [NatCast K] [LT K] [LE K]
     [DecidableLT K] [DecidableLE K] (sqrt acos cos : K → K) (pi eps : K) :
     (∀ (A : M3 K) (ev : K), eig0T sqrt A ev = eig0 sqrt A ev) ∧
+    (∀ e : V3 K, orthoCompT sqrt e = orthoComp sqrt e) ∧
+    (∀ (A : M3 K) (e0 : V3 K) (ev1 : K), eig1T sqrt A e0 ev1 = eig1 sqrt A e0 ev1) ∧
     (∀ (S : M3 K) (l : K × K × K) (r : K), trigVectorsT sqrt S l r = trigVectors sqrt S l r) ∧
     (∀ A : M3 K, eigenValuesVectors3dT sqrt acos cos pi eps A = eigenValuesVectors3d sqrt acos cos pi eps A) :=
-  ⟨eig0T_eq sqrt, trigVectorsT_eq sqrt, eigenValuesVectors3dT_eq sqrt acos cos pi eps⟩
+  ⟨eig0T_eq sqrt, orthoCompT_eq sqrt, eig1T_eq sqrt, trigVectorsT_eq sqrt, eigenValuesVectors3dT_eq sqrt acos cos pi eps⟩
 
 /-- the tables are not degenerate: on the integers (identity as "square root") the table-driven `eig0` of
 `diag(2,1,1) - 2 I` picks the third cross product, the only non-zero one -/
@@ -607,5 +612,60 @@ implementation with the eigenvector job and pass the caller's matrix (so `jobz =
 theorem entry_points_request_vectors : Gen.entryJobs.2.1 = true ∧ Gen.entryJobs.2.2.2 = true := entry_jobs_ok
 
 example : Gen.entryJobs.1 = false := rfl
+
+/-! ## Refinement to the abstract specification -/
+
+/-- the abstract specification the property states for a symmetric 3x3 matrix: ascending values that sum to the trace
+and are the whole spectrum with multiplicity, and unit, mutually orthogonal vectors with `(A - λᵢ I) vᵢ = 0` -/
+structure IsEigenDecomposition3 (A : M3 ℝ) (l : ℝ × ℝ × ℝ) (v : V3 ℝ × V3 ℝ × V3 ℝ) : Prop where
+  ascending : l.1 ≤ l.2.1 ∧ l.2.1 ≤ l.2.2
+  trace : l.1 + l.2.1 + l.2.2 = trace3 A
+  spectrum : ∀ t : ℝ, charPoly3 A t = (t - l.1) * (t - l.2.1) * (t - l.2.2)
+  vectors : EigTriple A l.1 l.2.1 l.2.2 v.1 v.2.1 v.2.2
+
+/-- **ev3_refines_specification.** End to end, from the control flow assembled out of the translated tables to the
+abstract specification: for every real symmetric 3x3 matrix that the code does not treat as diagonal,
+`FMatrixHelp::eigenValuesVectors` returns an exact eigen-decomposition (`IsEigenDecomposition3`: ascending, trace,
+whole spectrum with multiplicity, orthonormal eigenvectors), and its values are those of `FMatrixHelp::eigenValues`.
+(The complementary case is `ev3_vectors_diag`: an approximate decomposition with residual `≤ sqrt(eps)·‖A‖`.) -/
+theorem ev3_refines_specification (eps : ℝ) (he : 0 ≤ eps) (A : M3 ℝ) (hs : Sym3 A)
+    (hb : diagBranchVec eps (sdiv3 A (maxAbsElement A)) = false) :
+    (eigenValuesVectors3dT Real.sqrt Real.arccos Real.cos Real.pi eps A).1 =
+        eigenValues3d Real.sqrt Real.arccos Real.cos Real.pi eps A ∧
+    IsEigenDecomposition3 A (eigenValuesVectors3dT Real.sqrt Real.arccos Real.cos Real.pi eps A).1
+      (eigenValuesVectors3dT Real.sqrt Real.arccos Real.cos Real.pi eps A).2 := by
+  have hnd : ¬ DiagBranch eps (sdiv3 A (maxAbsElement A)) := by
+    intro hd
+    rw [(diagBranchVec_iff eps _).mpr hd] at hb
+    exact Bool.noConfusion hb
+  have hag := ev3_entry_points_agree Real.sqrt Real.arccos Real.cos Real.pi eps A
+  rw [eigenValuesVectors3dT_eq]
+  refine ⟨hag, ?_, ?_, ?_, ?_⟩
+  · rw [hag]; exact ev3_ascending _ _ _ _ _ A
+  · rw [hag]; exact ev3_trace _ _ _ _ _ A
+  · rw [hag]; exact ev3_spectrum eps he A hs (Or.inr hnd)
+  · exact ev3_vectors eps he A hs hb
+
+/-- (hypotheses satisfiable: the two examples after `ev3_vectors`; the specification is not vacuous: the identity
+decomposition of `diag(1,2,3)` satisfies its first three clauses) -/
+example : charPoly3 (⟨1, 0, 0, 0, 2, 0, 0, 0, 3⟩ : M3 ℝ) 5 = (5 - 1) * (5 - 2) * (5 - 3) := by
+  unfold charPoly3 det3 shift3
+  norm_num
+
+/-- **nonsym_spectrum_handover.** "Returns the spectrum (all roots of the characteristic polynomial)": for every order
+and every square matrix over a commutative ring, what ?geev is handed has the characteristic polynomial of `A` — the
+fixed-size routine hands over `Aᵀ` (`Matrix.charpoly_transpose`), the dynamic one `A` itself — and what ?syev works on
+is `A` when `A` is symmetric; with the orientation of the copy loops and `uplo` as translated from the current source.
+So the roots LAPACK returns (trusted) are the spectrum of `A`, complex pairs included. -/
+theorem nonsym_spectrum_handover {R : Type} [CommRing R] (n : Nat) (A : Nat → Nat → R) :
+    (toMatN n (lapackSeesNonSymFT n A)).charpoly = (toMatN n A).charpoly ∧
+    toMatN n (lapackSeesNonSymDT n A) = toMatN n A ∧
+    (SymOn n A → toMatN n (lapackSeesSymT n A) = toMatN n A) := by
+  rw [lapackSeesNonSymFT_eq, lapackSeesNonSymDT_eq, lapackSeesSymT_eq]
+  exact ⟨charpoly_seesNonSymF n A, toMatN_seesNonSymD n A, toMatN_seesSym n A⟩
+
+/-- a non-symmetric instance: for `A = [[1,2],[0,3]]` LAPACK is handed a different matrix by the fixed-size routine -/
+example : lapackSeesNonSymFT 2 (fun i j => if i = 0 ∧ j = 1 then (2 : ℤ) else 0) 1 0 = 2 ∧
+    (fun i j => if i = 0 ∧ j = 1 then (2 : ℤ) else 0) 1 0 = 0 := by decide
 
 end DV.C08
